@@ -194,3 +194,13 @@ class RemoteContext(SupportRemoteGetState):
             return True
         except ConnectionClosedError:
             return False
+        except Exception:
+            # whatever else goes wrong while this one client's worker is rebuilt (its connection is already reset,
+            # its payload cannot be loaded here, the child cannot be started...) concerns that client only: it is told
+            # by closing the connection, the context and the workers of other clients carry on
+            logger.exception('Could not create a worker within the context - the client is dropped')
+            try:
+                cli.close()
+            except OSError:
+                pass
+            return False
